@@ -1770,11 +1770,11 @@ def corr_cache(ctx, small_map):
 
 
 # ------------------------------------------------------------------------------------------ main
-BIG = 1_000_000
+BIG = 800_000  # maps above this size (Town01/02/04/06/07/10HD, Issue295a: 20-60 s of parsing each): one per quick run, rotating with the seed
 
 
 def make_jobs(ctx):
-    """quick: every map below 1 MB and one of the big towns (rotating with the seed) with default options, one
+    """quick: every map below 800 kB and one of the seven bigger maps (rotating with the seed) with default options, one
     non-default option combination for the maps below 300 kB, six mutated maps; thorough: every map, 3-8 option
     combinations each, 48 mutated maps."""
     maps = repo_maps(ctx.repo)
@@ -1875,7 +1875,7 @@ def run(ctx):
     ctx.extra["maps_used"] = used
     ctx.extra["maps_skipped_empty"] = skipped
     ctx.notes.append(f"maps used: {len(used)}; skipped because empty in this sandbox: {skipped}; "
-                     "the quick tier leaves all but one of the maps above 1 MB to the thorough tier")
+                     "the quick tier leaves all but one of the maps above 800 kB to the thorough tier")
     exe = os.path.join(ctx.root, "lean", ".lake", "build", "bin", "drv_c20")
     for j in jobs:
         j["driver"] = exe if (pr.build_ok or os.path.exists(exe)) else None
